@@ -32,13 +32,15 @@ import (
 )
 
 type vflNode struct {
-	Name string `json:"name"`
-	Kind string `json:"kind"` // S | T | V
-	Cap  int    `json:"cap"`
-	K    int    `json:"k"`
-	OKey bool   `json:"okey"`
-	Err  int    `json:"err"` // 1-based position of an error chunk (0 = none)
-	Pan  int    `json:"pan"` // S node: its stream is wrapped by StreamReaderWithConvert whose convert function panics on its pan-th chunk
+	Name   string `json:"name"`
+	Kind   string `json:"kind"` // S | T | V
+	Cap    int    `json:"cap"`
+	K      int    `json:"k"`
+	OKey   bool   `json:"okey"`
+	Err    int    `json:"err"`    // 1-based position of an error chunk (0 = none)
+	Cancel bool   `json:"cancel"` // the node's body cancels the caller's context right before it returns (cancellation arriving while the
+	// last step of the run completes: the run still reaches END and returns its stream)
+	Pan int `json:"pan"` // S node: its stream is wrapped by StreamReaderWithConvert whose convert function panics on its pan-th chunk
 }
 
 type vflBranch struct {
@@ -71,6 +73,7 @@ type vflRec struct {
 	started int32
 	ended   int32
 	hwg     sync.WaitGroup
+	cancel  context.CancelFunc
 }
 
 func (r *vflRec) emit(format string, a ...interface{}) {
@@ -140,6 +143,9 @@ func vflLambda(r *vflRec, n vflNode) *Lambda {
 			atomic.AddInt32(&r.started, 1)
 			r.emit(`{"ev":"start","n":%q}`, n.Name)
 			go vflProduce(r, n, sw)
+			if n.Cancel {
+				r.cancel()
+			}
 			if n.Pan > 0 {
 				calls := 0
 				return schema.StreamReaderWithConvert(sr, func(m map[string]any) (map[string]any, error) {
@@ -158,10 +164,16 @@ func vflLambda(r *vflRec, n vflNode) *Lambda {
 			atomic.AddInt32(&r.started, 1)
 			r.emit(`{"ev":"start","n":%q}`, n.Name)
 			go vflTransform(r, n, in, sw)
+			if n.Cancel {
+				r.cancel()
+			}
 			return sr, nil
 		})
 	default:
 		return InvokableLambda(func(ctx context.Context, in map[string]any) (map[string]any, error) {
+			if n.Cancel {
+				r.cancel()
+			}
 			return map[string]any{n.Name: "x"}, nil
 		})
 	}
@@ -365,7 +377,10 @@ func vflRun(c *vflCase, w *bufio.Writer, seen map[string]bool) {
 				errs = fmt.Sprint("panic: ", p)
 			}
 		}()
-		sr, err := run.Stream(context.Background(), map[string]any{"in": "x"}, opts...)
+		cctx, cancel := context.WithCancel(context.Background())
+		defer cancel()
+		r.cancel = cancel
+		sr, err := run.Stream(cctx, map[string]any{"in": "x"}, opts...)
 		if err != nil {
 			errs = err.Error()
 			return
